@@ -266,10 +266,20 @@ type gplan struct {
 	att     [2]string
 	n       [5]int
 	closeAt byte
+	splits  []string // h<point> / r<point>
 }
 
 func (p gplan) String() string {
-	return fmt.Sprintf("%s/%s/%d.%d.%d.%d.%d/%c", p.att[0], p.att[1], p.n[0], p.n[1], p.n[2], p.n[3], p.n[4], p.closeAt)
+	s := fmt.Sprintf("%s/%s/%d.%d.%d.%d.%d/%c", p.att[0], p.att[1], p.n[0], p.n[1], p.n[2], p.n[3], p.n[4], p.closeAt)
+	if len(p.splits) > 0 {
+		s += "/" + strings.Join(p.splits, ",")
+	}
+	return s
+}
+
+func withSplits(p gplan, sp ...string) gplan {
+	p.splits = append(append([]string{}, p.splits...), sp...)
+	return p
 }
 
 func histLine(os bool, rt int, cs []gcontract, plans []gplan) string {
@@ -435,6 +445,19 @@ func (Area) Gen(r *rand.Rand, tier string, emit func(string)) {
 		}
 		all := gplan{att: [2]string{ok(0), ok(0)}, n: [5]int{1, 1, 1, 1, 1}, closeAt: '-'}
 		emitHist(emit, false, cs, []gplan{all, all, sp(2, -1)})
+		// ResolveNow split at the hook between pointer load and once-call
+		//  stale pointer: loaded while parked, another call wakes the poller, released after the re-arm and the next poll
+		emitHist(emit, false, cs, []gplan{withSplits(sp(0, 3), "hD"), withSplits(sp(2, -1), "rD"), sp(0, -1)})
+		//  loaded during a poll, generation closed by another call before the select, released before the next poll
+		emitHist(emit, false, cs, []gplan{withSplits(sp(0, 2), "hB"), withSplits(sp(2, -1), "rA"), sp(0, -1)})
+		//  loaded in the wake/re-arm window (spent once-func), released while parked after the next poll
+		emitHist(emit, false, cs, []gplan{withSplits(sp(0, 3), "hE"), withSplits(sp(2, -1), "rD"), sp(0, -1)})
+		//  loaded before a poll on the armed generation, released while parked: wakes the poller
+		emitHist(emit, false, cs, []gplan{sp(0, 3), withSplits(sp(2, -1), "hA", "rD"), sp(0, -1)})
+		//  loaded and released at the same parked point
+		emitHist(emit, false, cs, []gplan{withSplits(sp(0, -1), "hD", "rD"), sp(2, -1)})
+		//  two held calls of the same generation released together during a later poll
+		emitHist(emit, false, cs, []gplan{withSplits(sp(0, 3), "hA", "hC"), withSplits(sp(2, 3), "rB"), sp(0, -1)})
 		// Close at every point, with and without a pending wake-up
 		for pt := 0; pt < 5; pt++ {
 			for _, pending := range []bool{false, true} {
@@ -661,6 +684,17 @@ func genHist(r *rand.Rand, emit func(string)) {
 			count(fmt.Sprintf("close:%c", p.closeAt))
 		}
 		plans = append(plans, p)
+	}
+	// split ResolveNow calls: held after the pointer load at one point, released at another
+	if r.Intn(3) == 0 {
+		for k := 1 + r.Intn(2); k > 0; k-- {
+			hp, rp := r.Intn(np), r.Intn(np)
+			hpt, rpt := byte('A'+r.Intn(5)), byte('A'+r.Intn(5))
+			plans[hp].splits = append(plans[hp].splits, "h"+string(hpt))
+			plans[rp].splits = append(plans[rp].splits, "r"+string(rpt))
+			count("split:hold" + string(hpt) + "-release" + string(rpt))
+		}
+		// the last plan must stay quiescent unless a release wakes the poller; nothing to adjust
 	}
 	emitHist(emit, os, cs, plans)
 }
